@@ -282,6 +282,16 @@ def Naming.removeInstance (n : Naming) (k : SKey) (short : ShortKey) (client : O
                 | none => n.clientSets) },
      (svc.removeInstance short client now).2)
 
+/-- apply of `NamingRaftReq::RemoveInstance` (the committed removal of a persistent instance): an ephemeral registration
+that has taken the address over is left alone -/
+def Naming.raftRemove (n : Naming) (k : SKey) (short : ShortKey) (now : Int) : Naming :=
+  match AL.get? n.services k with
+  | none => n
+  | some svc =>
+    match AL.get? svc.insts short with
+    | some i => if i.ephemeral then n else (n.removeInstance k short none now).1
+    | none => (n.removeInstance k short none now).1
+
 /-- is the recorded instance a persistent one? (a closing connection leaves those alone) -/
 def Naming.isPersistent (n : Naming) (ik : IKey) : Bool :=
   match AL.get? n.services ik.skey with
